@@ -19,7 +19,7 @@ Variant switch `Cfg` (DESIGN §2.5): the full theorems are proved for `Cfg.fixed
 while a waiter is registered), the `_counterexample` theorems exhibit the witnesses.
 -/
 import DrandProofs.C14Http
--- import DrandProofs.C01
+import DrandProofs.C01
 
 namespace Drand.Http
 
@@ -591,5 +591,39 @@ theorem c01_http_latest (g : Option Beacon) (i : Option Info) (body : Option Bea
   cases g <;> cases i <;> simp_all [latestRandAnswer] <;> (subst h; simp)
 
 example : latestRandAnswer (some ⟨10, 1010⟩) (some exInfo) = ⟨200, some ⟨10, 1010⟩⟩ := by decide
+
+/-! ## ties (Gen/HttpW.lean, regenerated from handler/http/server.go on every run) -/
+
+/-- both evaluations of `block` in `getRand` are the model's `blockGuard` -/
+theorem tie_block_guards (l r : Nat) :
+    Gen.HttpW.blockGuard1 l r = blockGuard l r ∧ Gen.HttpW.blockGuard2 l r = blockGuard l r := ⟨rfl, rfl⟩
+
+/-- the watcher's unexpected-round condition is the model's `unexpectedRound` -/
+theorem tie_unexpected_round (l n : Nat) : Gen.HttpW.unexpectedRound l n = unexpectedRound l n := rfl
+
+/-- … and what it sends then is a NON-NIL EMPTY slice (`Payload.emptySlice`: passes `data == nil` in `PublicRand`) -/
+theorem tie_unexpected_payload : Gen.HttpW.unexpectedAssign = "[]byte{}" := rfl
+
+/-- `PublicRand`'s decision on getRand's result is `publicRandAnswer`: error → 500, nil data → 404, anything else
+(including an empty non-nil slice) → ServeContent, i.e. 200 -/
+theorem tie_public_rand_decision :
+    Gen.HttpW.publicRandDecision = ["err!=nil => http.StatusInternalServerError", "data==nil => http.StatusNotFound",
+                                    "=> http.ServeContent bytes.NewReader(data)"] := rfl
+
+/-- what follows the waiting part of `getRand`: the future test (`futureChk`: RLock only for the log line), then the
+direct `client.Get` whose result is marshalled and returned without looking at its round (`getAns`) -/
+theorem tie_after_waiting :
+    Gen.HttpW.afterWaiting = ["if dateOfRound(round, info).After(time.Now()) { bh.pendingLk.RLock() bh.pendingLk.RUnlock() return nil, nil }",
+      "ctx, cancel := context.WithTimeout(ctx, h.timeout)", "defer cancel()", "resp, err := bh.client.Get(ctx, round)",
+      "if err != nil { return nil, err }", "return json.Marshal(resp)"] := rfl
+
+open Drand.Driver.HttpWD in
+/-- the receive branch of the parked waiter is one of the two modelled variants (`Cfg.emptyFallsBack`) -/
+theorem tie_recv_branch : Gen.HttpW.recvBranch = asIsRecv ∨ Gen.HttpW.recvBranch = fixedRecv := by decide
+
+open Drand.Driver.HttpWD in
+/-- the source tree is the as-is code or the code with reports/http_fix_1.diff applied (or one hunk of it): the
+variant the driver reads off the facts is defined -/
+theorem tie_variant : srcCfg.isSome = true := by decide
 
 end Drand.Http
